@@ -154,6 +154,29 @@ add('C19', 'runtime monitoring: stats reports compared with a model counter fed 
     'DESIGN.md section 3, C19')
 
 
+add('C17', 'runtime monitoring: responses of real routes rendered from generated endpoint results, parsed (json / html.parser) and '
+           'compared with the value',
+    '32 000 renders per quick run through render_basic, render_json, render_json_dev, streaming JSON, a latin-1 JSON renderer and JSONP: '
+    'clear-cut JSON / HTML / plain texts (str and bytes) must be labelled accordingly and pass through unchanged; scalars, None, '
+    'objects, generators must yield 200; containers must come back as JSON equal to the value, or as an HTML table containing every '
+    'cell when HTML is asked for and the shape is tabular; JSON-native data must round-trip exactly, dev mode must fall back to repr.',
+    'DESIGN.md section 3, C17')
+add('C18', 'runtime monitoring: unique sentinels planted in resource values and cookie signing keys, searched for in both meta views of '
+           'generated host applications',
+    '1 100 host applications per quick run (resources with secret as prefix/infix/suffix/whole name and without, values str/bytes/number/'
+    'nested/object-repr/raising-repr; 14 route kinds; cookie, stats, gzip and hostile-repr middlewares; meta mounted directly or two '
+    'levels deep): both views must answer 200, contain no sentinel of a secret-named resource nor the cookie key in raw / HTML- / '
+    'JSON- / repr-escaped form, list secret resources with one common marker and show the other resources\' values.',
+    'DESIGN.md section 3, C18')
+add('C20', 'runtime monitoring: flaw.create_app on generated error texts and file lists; the served page tokenised with html.parser '
+           '(canary oracle, verbatim text, file names, exception type and message)',
+    '3 500 cases per quick run: real tracebacks (14 exception types, depths 1-30, 14 message shapes), SyntaxError reports, truncated / '
+    'concatenated tracebacks, random control-character text, template syntax, empty / None / bytes / numbers; file lists None / empty / '
+    '2 000 entries / hostile names; 11 paths x 5 methods. create_app must not raise, the answer must be a 200 HTML page with the text and '
+    'every file name verbatim and no canary as markup.',
+    'DESIGN.md section 3, C20')
+
+
 def main():
     present = sorted(p for p in CHECKS if os.path.exists(os.path.join(HERE, 'vt', 'checks', p + '.py')))
     checks = []
